@@ -139,8 +139,10 @@ func (c *ctx) scalarEvent(op string, gen func() []byte) {
 		var vals []*scalar.Scalar
 		for i := 0; i < k; i++ {
 			a := gen()
-			if vt.FromLE(a).Mod(vt.FromLE(a), vt.L).Sign() == 0 || (a[31]&0x7f == 0 && vt.FromLE(a[:31]).Sign() == 0) {
-				a[0] ^= 1 // zero is outside the contract
+			m := append([]byte(nil), a...)
+			m[31] &= 0x7f // SetBits masks bit 255 before the value is used
+			if new(big.Int).Mod(vt.FromLE(m), vt.L).Sign() == 0 {
+				a[0] ^= 1 // a zero residue is outside the contract of BatchInvert
 			}
 			ins = append(ins, vt.B(a))
 			vals = append(vals, bits(a))
